@@ -2,6 +2,7 @@ package main
 
 import (
 	"fmt"
+	"go/constant"
 	"go/token"
 	"go/types"
 	"sort"
@@ -199,11 +200,27 @@ func ruleSpecDefaultValue(c *Ctx, r *R) {
 	}
 	dateName := strings.Trim(dateClass.Val().ExactString(), `"`)
 	ost := m.tObject.Underlying().(*types.Struct)
-	fClass := -1
+	fClass, fObjValue := -1, -1
 	for i := 0; i < ost.NumFields(); i++ {
-		if ost.Field(i).Name() == "class" {
+		switch ost.Field(i).Name() {
+		case "class":
 			fClass = i
+		case "value":
+			fObjValue = i
 		}
+	}
+	// every [[Class]] the package names: a wrapper object (Number, Boolean, String) carries its primitive as payload, and
+	// 8.12.8 makes no exception for it - valueOf / toString are looked up and called like on any object
+	var classes []string
+	for _, nme := range c.Otto().Types.Scope().Names() {
+		if k, ok := c.Otto().Types.Scope().Lookup(nme).(*types.Const); ok && strings.HasPrefix(nme, "class") && strings.HasSuffix(nme, "Name") && k.Val().Kind() == constant.String {
+			classes = append(classes, constant.StringVal(k.Val()))
+		}
+	}
+	sort.Strings(classes)
+	if len(classes) < 6 {
+		r.undecided("unresolved:classes", "-", fmt.Sprintf("UNRESOLVED: only %d class name constants found", len(classes)))
+		return
 	}
 	var trace []string
 	callable := map[string]bool{}
@@ -246,7 +263,8 @@ func ruleSpecDefaultValue(c *Ctx, r *R) {
 	bad := ""
 	fail := ""
 	for hname, hv := range hints {
-		for _, isDate := range []bool{false, true} {
+		for _, cls := range classes {
+			isDate := cls == dateName
 			for mask := 0; mask < 16; mask++ {
 				callable["toString"], primitive["toString"] = mask&1 != 0, mask&2 != 0
 				callable["valueOf"], primitive["valueOf"] = mask&4 != 0, mask&8 != 0
@@ -269,11 +287,10 @@ func ruleSpecDefaultValue(c *Ctx, r *R) {
 					}
 				}
 				obj := in.zero(m.tObject).(aStruct)
-				cls := "Object"
-				if isDate {
-					cls = dateName
-				}
 				obj.f[fClass] = aStr(cls)
+				if fObjValue >= 0 {
+					obj.f[fObjValue] = aIface{dyn: m.tValue, v: m.mkValue(in, "prim:payload")}
+				}
 				obj.f[w.fRt] = aAtom{"rt"}
 				trace = nil
 				ret, pan, f := absRun(in, fn, []aval{aRef{root: &acell{v: obj, name: "o"}}, aInt(hv)})
@@ -293,7 +310,7 @@ func ruleSpecDefaultValue(c *Ctx, r *R) {
 				}
 				if strings.Join(trace, ", ") != strings.Join(want, ", ") || gotRes != wantRes {
 					if bad == "" {
-						bad = fmt.Sprintf("hint %s, Date=%v, toString callable=%v primitive=%v, valueOf callable=%v primitive=%v: observed [%s] -> %s; ES5 8.12.8 requires [%s] -> %s", strings.TrimPrefix(hname, "defaultValue"), isDate, callable["toString"], primitive["toString"], callable["valueOf"], primitive["valueOf"], strings.Join(trace, ", "), gotRes, strings.Join(want, ", "), wantRes)
+						bad = fmt.Sprintf("hint %s, class %s (Date=%v), toString callable=%v primitive=%v, valueOf callable=%v primitive=%v: observed [%s] -> %s; ES5 8.12.8 requires [%s] -> %s", strings.TrimPrefix(hname, "defaultValue"), cls, isDate, callable["toString"], primitive["toString"], callable["valueOf"], primitive["valueOf"], strings.Join(trace, ", "), gotRes, strings.Join(want, ", "), wantRes)
 					}
 				}
 			}
